@@ -65,7 +65,7 @@ struct Opts {
     int timeout;    // watchdog seconds per case (backstop, inconclusive when it fires)
     bool wild, verbose, dumpFinal, nofork;
     std::map<std::string, std::string> kv;
-    Opts() : seed(1), from(0), to(1), maxops(40), timeout(120), wild(false), verbose(false), dumpFinal(false), nofork(false) {}
+    Opts() : seed(1), from(0), to(1), maxops(40), timeout(40), wild(false), verbose(false), dumpFinal(false), nofork(false) {}
     std::string get(const std::string& k, const std::string& d = "") const { std::map<std::string, std::string>::const_iterator it = kv.find(k); return it == kv.end() ? d : it->second; }
     long geti(const std::string& k, long d) const { std::map<std::string, std::string>::const_iterator it = kv.find(k); return it == kv.end() ? d : atol(it->second.c_str()); }
 };
